@@ -9,6 +9,7 @@ import BufrModel.Drv.BitsOp
 import BufrModel.Drv.PathOp
 import BufrModel.Drv.CoderOp
 import BufrModel.Drv.ScriptOp
+import BufrModel.Drv.SectionsOp
 open Lean Bufr.Drv
 
 /-- stateless operations: one line per op (keep sorted by property to ease merging) -/
@@ -20,7 +21,11 @@ def statelessOps : List (String × (Json → J Json)) :=
   ("script-segs", opScriptSegs) ::
   ("script-enum", opScriptEnum) ::
   ("flatten", opFlatten) ::
+  ("msg-encode", opMsgEncode) ::
+  ("msg-decode", opMsgDecode) ::
+  ("mdquery", opMdQuery) ::
   []
+
 
 /-- operations that read or change the driver state -/
 def statefulOps : List (String × (DrvState → Json → J (DrvState × Json))) :=
